@@ -243,7 +243,13 @@ class Block(typing.Generic[C]):
 
                 try:
                     await waiter
-                except Exception:
+                except BaseException:
+                    # BaseException, because the most likely reason to end up
+                    # here is the cancellation of the acquiring task, and
+                    # asyncio.CancelledError is not an Exception. If we were
+                    # already woken up by release(), the wakeup must be handed
+                    # over to the next waiter, or it is lost and the released
+                    # connection idles while the rest of the queue hangs.
                     if not waiter.done():
                         waiter.cancel()
                     try:
